@@ -17,6 +17,7 @@ Oracle: model-free field-by-field comparison of the object before and after (typ
 """
 from __future__ import annotations
 
+import copy
 import json
 import shutil
 from pathlib import Path
@@ -226,13 +227,14 @@ def unreadable_kind(rec: dict, version: int) -> str:
     return "C01:record-unreadable"
 
 
-def violations_of(kind: str, version: int, rec: dict, path: Path) -> list:
+def violations_of(kind: str, version: int, rec: dict, path: Path, how: str = "plain") -> list:
     """[(kind, what)] for ONE record sent through a fresh real library (used by the shrinker and by replay)"""
     cl.new_library_file(kind, path, version)
-    obj = cl.build(rec)
+    obj, _keep = cl.build_variant(rec, how)
     inp = cl.snapshot(obj)
-    if cl.store(kind, path, [("k", obj)]):
-        return []
+    errs = cl.store(kind, path, [("k", obj)])
+    if errs:
+        return [("C01:object-cannot-be-stored", f"storing raised {type(errs['k']).__name__}: {errs['k']}")]
     back = cl.load(kind, path, ["k"])["k"]
     if isinstance(back, Exception):
         return [(unreadable_kind(inp, version), f"cannot be read back: {type(back).__name__}: {back}")]
@@ -313,7 +315,7 @@ def _zeros_like(x):
     return [_zeros_like(y) for y in x] if isinstance(x, list) else 0.0
 
 
-def shrink(ctx, kind: str, version: int, rec: dict, target: str, budget: int = 80) -> dict:
+def shrink(ctx, kind: str, version: int, rec: dict, target: str, budget: int = 80, how: str = "plain") -> dict:
     """greedy delta debugging: keep a simplification while the real code still shows the same violation class"""
     path = ctx.scratch / "shrink.lib"
     cur = rec
@@ -325,7 +327,7 @@ def shrink(ctx, kind: str, version: int, rec: dict, target: str, budget: int = 8
             if budget <= 0:
                 break
             try:
-                if any(k == target for k, _ in violations_of(kind, version, cand, path)):
+                if any(k == target for k, _ in violations_of(kind, version, cand, path, how)):
                     cur, progress = cand, True
                     break
             except cl.HardTimeout:
@@ -341,10 +343,12 @@ def report(ctx, kindv: str, what: str, kind: str, version: int, rec: dict, repla
     if kindv not in seen:
         seen.add(kindv)
         try:
-            small = shrink(ctx, kind, version, rec, kindv)
-            replay = {"kind": kind, "version": version, "record": " ".join(cl.record_tokens(small)),
-                      "shrunk_from_atoms": len(rec["atoms"])}
-            vs = [w for k, w in violations_of(kind, version, small, ctx.scratch / "shrink.lib") if k == kindv]
+            how = replay.get("how", "plain")
+            rec0 = cl.record_from_tokens(kind, replay["record"].split(" "))   # the record the object was built from
+            small = shrink(ctx, kind, version, rec0, kindv, how=how)
+            replay = {"kind": kind, "version": version, "how": how, "record": " ".join(cl.record_tokens(small)),
+                      "shrunk_from_atoms": len(rec0["atoms"])}
+            vs = [w for k, w in violations_of(kind, version, small, ctx.scratch / "shrink.lib", how) if k == kindv]
             what = f"{kind} v{version}: {vs[0]}" if vs else what
             # keep the shrunk witness first: Ctx.finish writes the first replay of each class
             ctx.violations.insert(0, {"kind": kindv, "what": what, "replay": replay})
@@ -356,26 +360,44 @@ def report(ctx, kindv: str, what: str, kind: str, version: int, rec: dict, repla
     ctx.violation(kindv, what, replay)
 
 
-def run_batch(ctx, tag: str, kind: str, version: int, recs: list, probe: dict, requests: list, count: bool = True):
+def run_batch(ctx, tag: str, kind: str, version: int, recs: list, probe: dict, requests: list, count: bool = True,
+              vary: bool = True, hows: list | None = None):
     """store the records in one real library file, read raw and decoded, evaluate the oracle, queue driver lines"""
     path = ctx.scratch / f"{tag}.{'mlib' if kind == 'mol' else 'clib'}"
     cl.new_library_file(kind, path, version)
     items, inputs = [], {}
+    alive = []
     for i, rec in enumerate(recs):
         key = f"k{i}"
-        replay = {"kind": kind, "version": version, "record": " ".join(cl.record_tokens(rec))}
+        how = "plain"
+        if hows is not None:
+            how = hows[i]
+        elif vary and ctx.rng.chance(1, 2):
+            how = ctx.rng.choice(cl.HOWS[kind][1:])
+        replay = {"kind": kind, "version": version, "how": how, "record": " ".join(cl.record_tokens(rec))}
         try:
-            obj = cl.build(rec)
+            try:
+                obj, keep = cl.build_variant(rec, how)
+            except cl.HardTimeout:
+                raise
+            except Exception:  # noqa: BLE001   (e.g. nothing to edit in an empty molecule): the plain construction
+                how = replay["how"] = "plain"
+                obj, keep = cl.build(rec), []
             inp = cl.snapshot(obj)
         except Exception as e:  # noqa: BLE001
             ctx.disagree("public constructors refused a record of the domain", replay, f"{type(e).__name__}: {e}", "constructible")
             continue
+        alive.append(keep)
         items.append((key, obj))
         inputs[key] = (rec, inp, replay)
     errs = cl.store(kind, path, items)
     keys = [k for k, _ in items if k not in errs]
     for k, e in errs.items():
-        ctx.disagree("storing raised", inputs[k][2], f"{type(e).__name__}: {e}", "stored")
+        rec, inp, replay = inputs[k]
+        ctx.disagree("storing raised", replay, f"{type(e).__name__}: {e}", "stored")
+        report(ctx, "C01:object-cannot-be-stored", f"a {kind} of the domain ({replay['how']}) cannot be stored (v{version}): "
+                                                     f"{type(e).__name__}: {e}", kind, version, inp, replay)
+    del alive
     import msgpack
     rawb = cl.raw_bytes(path, keys)
     raws = {k: msgpack.loads(b, use_list=False, strict_map_key=False) for k, b in rawb.items()}
@@ -385,7 +407,8 @@ def run_batch(ctx, tag: str, kind: str, version: int, recs: list, probe: dict, r
     for k in keys:
         rec, inp, replay = inputs[k]
         if count:
-            ctx.case(replay["record"] + f"|{kind}{version}", nontrivial=nontrivial(inp))
+            ctx.case(replay["record"] + f"|{kind}{version}|{replay['how']}", nontrivial=nontrivial(inp))
+            ctx.count(f"built:{replay['how']}")
             for f in features(inp):
                 ctx.count(f)
             ctx.count(f"encoding=v{version}")
@@ -393,7 +416,18 @@ def run_batch(ctx, tag: str, kind: str, version: int, recs: list, probe: dict, r
         wire_t = cl.canon_bin_nan(cl.canon_nan(cl.toks(raws[k]))) if k in raws else None
         if isinstance(back, Exception) or back is None:
             kindv = unreadable_kind(inp, version)
-            report(ctx, kindv, f"a stored {kind} (v{version}) cannot be read back: {type(back).__name__}: {back}", kind, version, inp, replay)
+            if replay["how"] != "plain":
+                # is it the way the object was built?  (the same record built plainly reads back)
+                try:
+                    if not any("unreadable" in k or "cannot-be-stored" in k
+                               for k, _ in violations_of(kind, version, rec, ctx.scratch / "plain.lib", "plain")):
+                        kindv = "C01:unreadable-object-sharing-atoms"
+                except cl.HardTimeout:
+                    raise
+                except Exception:  # noqa: BLE001
+                    pass
+            report(ctx, kindv, f"a stored {kind} (v{version}, built: {replay['how']}) cannot be read back: {type(back).__name__}: {back}",
+                   kind, version, inp, replay)
             back_t = None
         else:
             bs = cl.snapshot(back)
@@ -558,6 +592,140 @@ def run_script_case(ctx, tag: str, kind: str, version: int, recs: list, script: 
         one("by a fresh library object afterwards", i, backs.get(k), wire_t, rawb.get(k))
 
 
+def grown(rec: dict) -> dict:
+    """the same object 'updated': longer name, one more atom bonded to the first - its record is longer than the old one"""
+    r = copy.deepcopy(rec)
+    r["name"] = str(r["name"]) + "_updated"
+    r["atoms"].append([8, None, "new", 1, 0, 0, 0, 0, {}])
+    if len(r["atoms"]) > 1:
+        r["bonds"].append([0, len(r["atoms"]) - 1, None, 1, 0, 1.0, {}])
+    if r["kind"] == "mol":
+        r["coords"].append([1.0, 2.0, 3.0])
+        r["charges"].append(0.5)
+    else:
+        for c in r["coords"]:
+            c.append([1.0, 2.0, 3.0])
+        for q in r["charges"]:
+            q.append(0.5)
+    return r
+
+
+def run_two_objects_case(ctx, tag: str, kind: str, version: int, recs1: list, recs2: list, overwrite: bool, bufsize: int,
+                         probe: dict, requests: list):
+    """two library objects on one path, never in a session at the same time: A stores recs1 and reads; B either re-creates
+    the file (overwrite=True) and stores recs2 under the SAME keys, or appends recs2 under new keys; then the long-lived A
+    reads: every key must give the object stored last, keys() must be the keys of the file; then A appends one more."""
+    path = ctx.scratch / f"{tag}.{'mlib' if kind == 'mol' else 'clib'}"
+    shape = "recreated-by-another-object" if overwrite else "appended-by-another-object"
+    replay = {"kind": kind, "version": version, "bufsize": bufsize, "shape": shape,
+              "records": [" ".join(cl.record_tokens(r)) for r in recs1], "records2": [" ".join(cl.record_tokens(r)) for r in recs2]}
+    ctx.case(json.dumps(replay, sort_keys=True), nontrivial=True)
+    ctx.count(f"session-shape:{shape}")
+    sch = probe["orders"][(kind, version)]["ser"]
+    stoks = schema_tokens(sch, (probe["atom_dflt"], probe["bond_dflt"]))
+    cls = cl.lib_class(kind)
+    objs1, objs2 = [cl.build(r) for r in recs1], [cl.build(r) for r in recs2]
+    keys2 = [f"k{i}" for i in range(len(objs2))] if overwrite else [f"n{i}" for i in range(len(objs2))]
+    expect = {}
+    reads = []      # (phase, key, result)
+    klists = []     # (phase, result, wanted)
+    cl.new_library_file(kind, path, version)
+    with cl.hard_timeout(cl.SESSION_TIMEOUT * 2, "two library objects"):
+        A = cls(path, readonly=False, bufsize=bufsize)
+        with A.writing(timeout=cl.SESSION_TIMEOUT):
+            for i, o in enumerate(objs1):
+                A[f"k{i}"] = o
+                expect[f"k{i}"] = recs1[i]
+        with A.reading(timeout=cl.SESSION_TIMEOUT):
+            for k in list(expect)[:2]:
+                reads.append(("A reads its own records", k, _try(lambda: A[k]), expect[k]))
+        if overwrite:
+            B = cls(path, overwrite=True, readonly=False, **({"h1": cl.V1_MAGIC} if version == 1 else {}))
+            if version == 1:
+                B = cls(path, readonly=False)   # the encoding is chosen from the header of the existing file
+            expect = {}
+        else:
+            B = cls(path, readonly=False)
+        with B.writing(timeout=cl.SESSION_TIMEOUT):
+            for k, o, r in zip(keys2, objs2, recs2):
+                B[k] = o
+                expect[k] = r
+        del B
+        with A.reading(timeout=cl.SESSION_TIMEOUT):
+            klists.append(("A lists keys after the other object wrote", _try(lambda: sorted(A.keys())), sorted(expect)))
+            for k in sorted(expect):
+                reads.append(("the long-lived object reads after the other object wrote", k, _try(lambda: A[k]), expect[k]))
+        extra = cl.build(recs1[0])
+        with A.writing(timeout=cl.SESSION_TIMEOUT):
+            A["last"] = extra
+            expect["last"] = recs1[0]
+            for k in sorted(expect):
+                reads.append(("the long-lived object reads inside its next writing session", k, _try(lambda: A[k]), expect[k]))
+    fresh = cl.load(kind, path, sorted(expect))
+    for k in sorted(expect):
+        reads.append(("a fresh object reads at the end", k, fresh.get(k), expect[k]))
+    reported = False
+    for phase, got, want in klists:
+        # after a re-creation only "every key of the file is listed" is C01's business: whether a long-lived object still
+        # lists keys of the file it saw BEFORE the re-creation is a question about the key-value file (C02)
+        wrong = isinstance(got, Exception) or (not set(want) <= set(got) if overwrite else got != want)
+        if wrong and not reported:
+            reported = True
+            ctx.violation("C01:key-set-differs", f"{kind} v{version} {shape}: {phase}: {got!r}, the file holds {want}", replay)
+    for phase, k, res, rec in reads:
+        ctx.count("session-read")
+        inp = cl.snapshot(cl.build(rec))
+        line = " ".join([kind] + stoks + cl.record_tokens(inp))
+        if isinstance(res, Exception) or res is None:
+            if not reported:
+                reported = True
+                ctx.violation("C01:record-unreadable-after-another-object-wrote", f"{kind} v{version} bufsize={bufsize} {shape}: {k}: {phase}: "
+                                                                                   f"{type(res).__name__}: {res}", replay)
+            requests.append((line, None, None, replay, None))
+            continue
+        bs = cl.snapshot(res)
+        for suffix, what in cl.compare(inp, bs):
+            if suffix == "list-read-back-as-tuple":
+                ctx.violation(KNOWN_KIND, f"{kind} v{version} {shape}: {k}: {what}", replay)
+            elif not reported:
+                reported = True
+                ctx.violation("C01:stale-object-read-after-another-object-wrote", f"{kind} v{version} bufsize={bufsize} {shape}: {k}: {phase}: {what}", replay)
+        requests.append((line, None, cl.canon_nan(cl.record_tokens(bs)), replay, None))
+
+
+def _try(f):
+    try:
+        return f()
+    except cl.HardTimeout:
+        raise
+    except Exception as e:  # noqa: BLE001
+        return e
+
+
+def two_object_shapes(ctx, probe: dict, requests: list, ev: dict):
+    n = 0
+    for kind in ("mol", "ens"):
+        for version in (2, 1):
+            for overwrite in (True, False):
+                for updated in (True, False):
+                    m = ctx.rng.range(2, 4)
+                    recs1 = [gen_record(ctx.rng, kind, version, True, ev) for _ in range(m)]
+                    recs2 = [grown(r) for r in recs1] if updated else [gen_record(ctx.rng, kind, version, True, ev) for _ in range(m)]
+                    run_two_objects_case(ctx, f"two{n}", kind, version, recs1, recs2, overwrite, ctx.rng.choice(BUFSIZES), probe, requests)
+                    n += 1
+    for _ in range(0 if ctx.quick() else 100):
+        kind = "mol" if ctx.rng.chance(1, 2) else "ens"
+        version = 2 if ctx.rng.chance(3, 4) else 1
+        m = ctx.rng.range(1, 5)
+        recs1 = [gen_record(ctx.rng, kind, version, True, ev) for _ in range(m)]
+        recs2 = [grown(r) for r in recs1] if ctx.rng.chance(1, 2) else [gen_record(ctx.rng, kind, version, True, ev) for _ in range(ctx.rng.range(1, 5))]
+        run_two_objects_case(ctx, f"two{n}", kind, version, recs1, recs2, ctx.rng.chance(1, 2), ctx.rng.choice(BUFSIZES), probe, requests)
+        n += 1
+        if len(requests) >= 400:
+            check_driver(ctx, requests)
+            requests.clear()
+
+
 def session_shapes(ctx, probe: dict, requests: list, ev: dict):
     n = 0
     for kind, version, recs, script, bufsize, shape in load_corpus_scripts():
@@ -636,9 +804,9 @@ def load_corpus() -> list:
         for p in sorted(d.glob("*.json")):
             o = json.loads(p.read_text())
             r = o.get("replay", o)
-            if "script" in r:
+            if "record" not in r:
                 continue
-            out.append((r["kind"], int(r["version"]), cl.record_from_tokens(r["kind"], r["record"].split(" "))))
+            out.append((r["kind"], int(r["version"]), cl.record_from_tokens(r["kind"], r["record"].split(" ")), r.get("how", "plain")))
     return out
 
 
@@ -691,7 +859,7 @@ def bundled(ctx, probe: dict, requests: list):
             # what was read is a fixed point: re-encoding gives the stored tuple, decoding that gives the object
             requests.append((" ".join([kind] + stoks + cl.record_tokens(s)), wire_t, cl.canon_nan(cl.record_tokens(s)), replay, None))
             second.append(s)
-        run_batch(ctx, f"second_{src.stem}", kind, version, second, probe, requests, count=False)
+        run_batch(ctx, f"second_{src.stem}", kind, version, second, probe, requests, count=False, vary=False)
         # exactness of the second generation is part of run_batch's oracle (compare is typed-exact / f32-exact)
 
 
@@ -710,7 +878,12 @@ def run(ctx):
                 "read all; (c) alternating - writing()/reading()/writing()/reading() on one long-lived object, the second writing "
                 "session reads earlier records between its stores; (d) random scripts of sessions and put/get/keys steps; "
                 "(b)-(d) for both classes, both encodings and bufsize in {-1, 0, 64, 10^6}, always followed by a fresh object "
-                "reading every key and by the byte comparison of the stored values. Non-trivial: >= 1 atom and >= 1 field that "
+                "reading every key and by the byte comparison of the stored values; (e) two library objects on one path: a "
+                "long-lived object stores and reads, another object re-creates the file (overwrite=True) under the same keys or "
+                "appends, the long-lived object reads again. Stored objects are built plainly or (half of the stream, all "
+                "variants on the probes) from shared / re-parented Atom objects: reparented, shallow copy (source alive / "
+                "collected), copy constructor, conformer of an ensemble, copy of a substructure, edited (del_atom), ensemble "
+                "from molecules. Non-trivial: >= 1 atom and >= 1 field that "
                 "is not the constructor default (records) / a read between two stores of one writing session (scripts); "
                 "distinct by canonical record tokens + encoding (+ script).")
     ctx.assumptions += [
@@ -750,11 +923,15 @@ def run(ctx):
                         b[6] = {}
                     r["attrib"] = {}
                 recs.append(r)
-            run_batch(ctx, f"probe_{kind}{version}", kind, version, recs, probe, requests)
+            run_batch(ctx, f"probe_{kind}{version}", kind, version, recs, probe, requests, vary=False)
+            # the same all-fields-distinct objects reached through every other public construction
+            sweep = [(r, h) for h in cl.HOWS[kind][1:] for r in recs[:2]]
+            run_batch(ctx, f"probe_{kind}{version}_built", kind, version, [copy.deepcopy(r) for r, _ in sweep], probe, requests,
+                      hows=[h for _, h in sweep])
 
     # ---- corpus ----
-    for i, (kind, version, rec) in enumerate(load_corpus()):
-        run_batch(ctx, f"corpus{i}", kind, version, [rec], probe, requests)
+    for i, (kind, version, rec, how) in enumerate(load_corpus()):
+        run_batch(ctx, f"corpus{i}", kind, version, [rec], probe, requests, hows=[how])
         ctx.count("corpus")
 
     # ---- seeded stream ----
@@ -777,6 +954,7 @@ def run(ctx):
 
     # ---- session shapes: interleaved reads and writes on one long-lived library object ----
     session_shapes(ctx, probe, requests, ev)
+    two_object_shapes(ctx, probe, requests, ev)
 
     # ---- bundled libraries (legacy files go through the legacy codec) ----
     bundled(ctx, probe, requests)
@@ -822,6 +1000,19 @@ def replay(ctx, path):
     obj = json.loads(Path(path).read_text())
     print(json.dumps({k: v for k, v in obj.items() if k != "replay"}, indent=1)[:3000])
     r = obj.get("replay") or {}
+    if "records2" in r:
+        _ = ctx.scratch
+        from harness.gen import Schema
+        kind, version = r["kind"], int(r["version"])
+        recs1 = [cl.record_from_tokens(kind, t.split(" ")) for t in r["records"]]
+        recs2 = [cl.record_from_tokens(kind, t.split(" ")) for t in r["records2"]]
+        run_two_objects_case(ctx, "replay_two", kind, version, recs1, recs2, r["shape"].startswith("recreated"), int(r["bufsize"]),
+                             Schema.cached_probe(), [])
+        bad = [v for v in ctx.violations if v["kind"] != KNOWN_KIND]
+        for v in bad:
+            print("violation:", v["kind"], v["what"])
+        print("two library objects on one path:", "differs" if bad else "every read gave the object stored last")
+        return 1 if bad else 0
     if "script" in r:
         _ = ctx.scratch
         kind, version = r["kind"], int(r["version"])
@@ -852,7 +1043,8 @@ def replay(ctx, path):
     rec = cl.record_from_tokens(kind, r["record"].split(" "))
     p = ctx.scratch / "replay.lib"
     cl.new_library_file(kind, p, version)
-    o = cl.build(rec)
+    o, _keep = cl.build_variant(rec, r.get("how", "plain"))
+    print("object built:", r.get("how", "plain"))
     inp = cl.snapshot(o)
     errs = cl.store(kind, p, [("k", o)])
     if errs:
